@@ -53,6 +53,7 @@ PROPS = {
             J("gf2p16", "C09_exported_mul", bound="every even length 0..70 bytes, symbolic constant, contents and SSSE3 flag"),
             J("gf2p16", "C09_exported_muladd", bound="every even length 0..70 bytes"),
             J("gf2p16", "C09_platformLE", bound="0..19 words through the unsafe []T<->[]byte views"),
+            J("gf2p16", "C09_asm_replay", kind="asmsym", bound="the four production kernels of slice_amd64.s as assembled by go tool asm: every length allowed by the callers (scalar: even, >= 2; SSSE3: >= 32; < 2^62), every constant, every content, symbolic base addresses, in != out and in == out; loops cut by induction on the iteration number"),
         ],
     ),
     "C11": dict(
@@ -99,4 +100,40 @@ NOT_APPLICABLE = {}
 
 
 def run_special(job, scratch, repo, verif, goenv, tier, seed):
-    raise NotImplementedError(job)
+    import json, os, subprocess, time
+    if job["kind"] != "asmsym":
+        raise NotImplementedError(job)
+    out = os.path.join(scratch, job["harness"] + ".json")
+    t0 = time.time()
+    try:
+        r = subprocess.run([os.path.join(verif, "engine", "bin", "asmsym"), "-repo", repo, "-out", out], stdout=subprocess.PIPE, stderr=subprocess.STDOUT, text=True, timeout=job.get("timeout", 900), env=goenv)
+        log = r.stdout
+    except subprocess.TimeoutExpired:
+        log = "asmsym timed out"
+    if not os.path.exists(out):
+        return dict(job=job, special=dict(inconclusive=["asmsym produced no result: " + log[-500:]]), wall=time.time() - t0)
+    res = json.load(open(out))
+    sp = dict(obligations=res["obligations"], by_solver=res["by_solver"] + res["by_normal_form"], queries=res["queries"], solver_s=res["solver_s"],
+              paths=res["paths"], steps=res["steps"], samples=res["samples"] or [], functions=res["functions"], labels=res["labels"],
+              inconclusive=list(res["inconclusive"] or []), violations=[], replays=0, mnemonics=res.get("mnemonics"))
+    kernels = {"mulByteSliceLEUnsafe": 0, "mulAndAddByteSliceLEUnsafe": 1, "mulSliceSSSE3Unsafe": 2, "mulAndAddSliceSSSE3Unsafe": 3}
+    import check
+    seen = set()
+    for v in res["violations"] or []:
+        fn = v["func"].replace("[in==out]", "")
+        same = "[in==out]" in v["func"]
+        key = (fn, same, v["label"].split(": ", 1)[1][:40])
+        if key in seen:
+            continue
+        seen.add(key)
+        model = dict(in_len=v["model"].get("in_len", 0), c=v["model"].get("c", 0) or 0x1234, kernel=kernels.get(fn, 0), same=1 if same else 0)
+        os.makedirs(os.path.join(verif, "replays", "C09"), exist_ok=True)
+        cpath = os.path.join(verif, "replays", "C09", "asm-%s%s-%d.json" % (fn, "-same" if same else "", len(seen)))
+        json.dump(dict(harness="C09_asm_replay", label=v["label"], kind="assert", model=model, solver_model=v["model"]), open(cpath, "w"), indent=1)
+        rr = check.native_replay(dict(pkg="gf2p16", harness="C09_asm_replay"), cpath, scratch)
+        sp["replays"] += 1
+        if rr.get("fails") or rr.get("panic"):
+            sp["violations"].append(dict(label=v["label"] + " [native: " + "; ".join(rr.get("fails") or [str(rr.get("panic"))[:80]]) + "]", replay=os.path.relpath(cpath, verif)))
+        else:
+            sp["inconclusive"].append("asmsym counterexample did not reproduce natively: %s (%s)" % (v["label"], json.dumps(rr)[:200]))
+    return dict(job=job, special=sp, wall=time.time() - t0)
